@@ -170,6 +170,19 @@ def run(ctx):
     corpus = L.corpus_texts(40000 if ctx.quick else 400000)
     fold_cases_from_texts(ctx, bindir, exe, sk_index, [s for _p, s in corpus], "corpus", stats, found)
 
+    # ---------------- extraction cross-check: a slice of the batch evaluated by vm_compute inside Coq
+    xc = []
+    small = [t for t in gen_texts + L.HAND_TEXTS if 0 < len(t) < 260][: (12 if ctx.quick else 40)]
+    for t, tr in zip(small, L.parsedump(bindir, small)):
+        if "tree" in tr:
+            m = L.model_lines(exe, "fold", [L.tree_line(tr["tree"], t, sk_index)])[0]
+            folds = [tuple(int(x) for x in p.split(":")) for p in m.split()] if m and not m.startswith(("DRIVER", "MODEL")) else []
+            xc.append((tr["tree"], t, folds, []))
+    ok_xc, n_xc, log_xc = L.coq_crosscheck(xc, "c18")
+    ctx.cov["extraction_crosschecked_in_coq"] = n_xc
+    if not ok_xc:
+        fails.append({"kind": "correspondence", "file": "extracted model vs vm_compute inside Coq (folding_model)", "log": log_xc})
+
     # ---------------- verdict
     def size_of(f):
         return len(f["text"]) if "text" in f else sum(len(t) for _n, t in f["files"])
